@@ -1181,16 +1181,31 @@ func (cx *evalCtx) call(x *ast.CallExpr) (TV, error) {
 		if err != nil {
 			return TV{}, err
 		}
-		obj, _, indirect := types.LookupFieldOrMethod(recv.T, true, cx.pkg, sel.Sel.Name)
+		obj, mpath, indirect := types.LookupFieldOrMethod(recv.T, true, cx.pkg, sel.Sel.Name)
 		if obj == nil {
 			if nt := namedOf(recv.T); nt != nil && nt.Obj().Pkg() != nil {
-				obj, _, indirect = types.LookupFieldOrMethod(recv.T, true, nt.Obj().Pkg(), sel.Sel.Name)
+				obj, mpath, indirect = types.LookupFieldOrMethod(recv.T, true, nt.Obj().Pkg(), sel.Sel.Name)
 			}
 		}
 		_ = indirect
 		m, ok := obj.(*types.Func)
 		if !ok {
 			return TV{}, fmt.Errorf("no method %s on %s", sel.Sel.Name, recv.T)
+		}
+		// a promoted method: walk the embedded fields down to the value that declares it
+		for _, fi := range mpath[:len(mpath)-1] {
+			bt := recv.T
+			if pt, ok := bt.Underlying().(*types.Pointer); ok {
+				bt = pt.Elem()
+			}
+			stt, ok := bt.Underlying().(*types.Struct)
+			if !ok || fi >= stt.NumFields() {
+				return TV{}, fmt.Errorf("promoted method %s: bad embedding path", sel.Sel.Name)
+			}
+			recv, err = cx.selectField(recv, stt.Field(fi).Name())
+			if err != nil {
+				return TV{}, err
+			}
 		}
 		if _, isIface := recv.T.Underlying().(*types.Interface); isIface {
 			return cx.ifaceSpecCall(recv, m, as)
@@ -1224,6 +1239,18 @@ func (cx *evalCtx) specCall(sf *SpecFunc, args []TV) (TV, error) {
 	pkgcx := cx.sub()
 	if p := r.eng.typesPkg(sf.Pkg); p != nil {
 		pkgcx.pkg = p
+	}
+	// a concrete value passed for an interface-typed parameter is boxed, as Go's implicit conversion does
+	for i, p := range sf.Params {
+		if args[i].Sort == SIface || args[i].T == nil {
+			continue
+		}
+		if t, err := pkgcx.resolveType(p.Type); err == nil && r.eng.sorts.sortOf(t) == SIface {
+			if _, isNil := args[i].T.(*types.Basic); isNil && args[i].T.(*types.Basic).Kind() == types.UntypedNil {
+				continue
+			}
+			args[i] = r.makeIface(cx.st, args[i], args[i].T, t)
+		}
 	}
 	if sf.Uninterpreted {
 		name := "spec_" + sf.Name
